@@ -50,6 +50,9 @@ pub struct Term {
 
 #[derive(Clone, Debug, Serialize, Deserialize, PartialEq, Eq)]
 pub struct Scanner {
+    /// wrapper rule indices listed in a %skip directive of this scanner state
+    #[serde(default)]
+    pub skip: Vec<usize>,
     pub name: String,
     /// (terminal-wrapper rule index, "enter"/"push"/"pop", target scanner index or usize::MAX for INITIAL)
     pub transitions: Vec<(usize, String, usize)>,
@@ -67,6 +70,9 @@ pub struct Gram {
     pub scanners: Vec<Scanner>,
     /// transitions declared for INITIAL
     pub initial_transitions: Vec<(usize, String, usize)>,
+    /// wrapper rule indices listed in a %skip directive of INITIAL
+    #[serde(default)]
+    pub initial_skip: Vec<usize>,
     /// number of alternations that were built with >= 2 prefix groups of equal size
     pub designed_ties: usize,
 }
@@ -255,10 +261,12 @@ pub fn generate(rng: &mut Rng) -> Gram {
     // scanner states: wrapper rules `Wk: "tk";` for transitions
     let mut scanners = vec![];
     let mut initial_transitions = vec![];
+    let mut initial_skip: Vec<usize> = vec![];
     if rng.chance(1, 3) && !terminals.is_empty() {
         let n_sc = rng.range(1, 2) as usize;
         for s in 0..n_sc {
             scanners.push(Scanner {
+                skip: vec![],
                 name: format!("Sc{s}"),
                 transitions: vec![],
             });
@@ -302,6 +310,23 @@ pub fn generate(rng: &mut Rng) -> Gram {
                         rng.usize_below(n_sc)
                     };
                     scanners[s].transitions.push((*w, k.to_string(), target));
+                }
+            }
+        }
+        // %skip lists (two or more tokens) for INITIAL and the scanner states
+        if wrappers.len() >= 2 {
+            let pick_list = |rng: &mut Rng| -> Vec<usize> {
+                let mut w = wrappers.clone();
+                rng.shuffle(&mut w);
+                w.truncate(rng.range(2, 3).min(w.len() as u64) as usize);
+                w
+            };
+            if rng.chance(1, 3) {
+                initial_skip = pick_list(rng);
+            }
+            for sc in scanners.iter_mut() {
+                if rng.chance(1, 3) {
+                    sc.skip = pick_list(rng);
                 }
             }
         }
@@ -384,6 +409,7 @@ pub fn generate(rng: &mut Rng) -> Gram {
         terminals,
         scanners,
         initial_transitions,
+        initial_skip,
         designed_ties: ties,
     }
 }
@@ -483,9 +509,15 @@ pub fn render(g: &Gram) -> String {
         out.push_str(d);
         out.push('\n');
     }
+    let skip_line = |sk: &Vec<usize>, indent: &str| -> String {
+        let names: Vec<String> = sk.iter().filter_map(|i| g.rules.get(*i).map(|r| r.name.clone())).collect();
+        if names.len() >= 1 { format!("{indent}%skip {}\n", names.join(", ")) } else { String::new() }
+    };
+    out.push_str(&skip_line(&g.initial_skip, ""));
     render_transitions(g, &g.initial_transitions, "", &mut out);
     for s in &g.scanners {
         out.push_str(&format!("%scanner {} {{\n", s.name));
+        out.push_str(&skip_line(&s.skip, "    "));
         render_transitions(g, &s.transitions, "    ", &mut out);
         out.push_str("}\n");
     }
@@ -551,8 +583,18 @@ fn remove_rule(g: &Gram, idx: usize) -> Option<Gram> {
         }
     };
     fix(&mut h.initial_transitions);
+    let fix_skip = |sk: &mut Vec<usize>| {
+        sk.retain(|i| *i != idx);
+        for i in sk.iter_mut() {
+            if *i > idx {
+                *i -= 1;
+            }
+        }
+    };
+    fix_skip(&mut h.initial_skip);
     for s in h.scanners.iter_mut() {
         fix(&mut s.transitions);
+        fix_skip(&mut s.skip);
     }
     Some(h)
 }
@@ -588,10 +630,11 @@ fn collect_paths(alts: &[Alt], prefix: &mut Vec<(usize, usize)>, out: &mut Vec<V
 pub fn reductions(g: &Gram) -> Vec<Gram> {
     let mut out = vec![];
     // drop scanner machinery
-    if !g.scanners.is_empty() || !g.initial_transitions.is_empty() {
+    if !g.scanners.is_empty() || !g.initial_transitions.is_empty() || !g.initial_skip.is_empty() {
         let mut h = g.clone();
         h.scanners.clear();
         h.initial_transitions.clear();
+        h.initial_skip.clear();
         for t in h.terminals.iter_mut() {
             t.states.clear();
         }
@@ -712,6 +755,7 @@ pub fn mix_with_corpus(corpus_text: &str, g: &Gram) -> Option<String> {
     h.decls.clear();
     h.scanners.clear();
     h.initial_transitions.clear();
+    h.initial_skip.clear();
     h.lalr = false;
     for t in h.terminals.iter_mut() {
         t.states.clear();
